@@ -44,6 +44,7 @@ type Config struct {
 	PreItems    []Item   `json:"pre,omitempty"`    // items present on adapter queue 0 before binding
 	PreBad      []BadEnt `json:"prebad,omitempty"` // C12: bad entries, by position among PreItems
 	FinalStop   bool     `json:"final_stop"`       // epilogue ends with Stop + leak accounting
+	NoCtrlTail  bool     `json:"no_ctrl_tail,omitempty"` // the controller does not bring the worker back to Running after its own calls (the epilogue does, after every client has finished)
 }
 
 type BadEnt struct {
